@@ -217,11 +217,15 @@ func (e *c14Env) op(i int, withDefault bool) *ast.OperationDefinition {
 
 type typedMap map[string]string
 
+type namedStr string
+type namedInt int64
+
 // leafAlts: alternatives for a named type; index 0 is the canonical conforming value.
 func leafAlts(name string) []any {
 	canon := map[string]any{"Int": 1, "Float": 1.5, "String": "s", "Boolean": true, "ID": "id", "Kind": "DOG", "Any": "any"}[name]
 	alts := []any{canon, nil, int64(2), int32(3), 2.5, float32(3.5), "7", "x", false, json.Number("5"), json.Number("1.5"), json.Number("zz"), "dog", "CAT", "BAD", "9223372036854775808", json.Number("-9999999999999999999"),
-		[]any{}, []any{1}, map[string]any{}, map[string]any{"b": "s"}, uint8(4), []int{1, 2}, []string{"a"}}
+		[]any{}, []any{1}, map[string]any{}, map[string]any{"b": "s"}, uint8(4), []int{1, 2}, []string{"a"},
+		namedStr("DOG"), namedStr("zz"), namedStr("12"), namedInt(3)} // strings and ints of a named Go type (what a generated client passes)
 	return alts
 }
 
